@@ -172,9 +172,23 @@ def ob_withdraw_released_only(ctx):
         n += 1
         left = [e for e in st.stores[HUB].entries if e.fam == ('B', b'v2_wait') and e.present is not False]
         keys = [e.key[1][1] for e in left]
-        ctx.require_all(st, [(len(left) == 2, 'claims on unreleased batches (not yet matured, still open) survive a withdrawal', 'withdraw:keeps_unreleased'),
-                             (z3.And(*[z3.Or(k == h2['id'], k == W.batch_id) for k in keys]) if keys else False,
-                              'exactly the released batch\'s claim is removed', 'withdraw:removes_released')], W.mv)
+        # released flags after the call (whether a batch may be released now is the time-lock, C08)
+        rel = {}
+        for he in st.stores[HUB].entries:
+            if he.fam == ('P', b'history_map') and he.present is not False:
+                rel[he.key[0][1]] = he.val.fields[8]
+
+        def released_after(bid):
+            cs = [z3.And(k_ == bid, r_ == True) if not isinstance(r_, bool) else (k_ == bid if r_ else False) for k_, r_ in rel.items()]   # noqa
+            cs = [c for c in cs if c is not False]
+            return z3.Or(*cs) if cs else False
+        cl = []
+        for bid in (h1['id'], h2['id'], W.batch_id):
+            kept = z3.Or(*[k_ == bid for k_ in keys]) if keys else False
+            ra = released_after(bid)
+            cl.append((z3.Or(kept, ra) if ra is not False else kept, 'claims on unreleased batches (not yet matured, still open) survive a withdrawal', 'withdraw:keeps_unreleased'))
+            cl.append((z3.Not(z3.And(kept, ra)) if ra is not False else True, 'the claim on every released batch is removed', 'withdraw:removes_released'))
+        ctx.require_all(st, [c for c in cl if c[0] is not True], W.mv)
     ctx.need_witness('withdraw Ok path', n > 0)
     ctx.witness_found('withdraw with one matured, one immature and one open batch')
 
